@@ -32,7 +32,8 @@ const LOADCSS: u8 = 3;
 struct Graph {
     /// 0 plain, 1 partials, 2 leaves are `x/index.scss`, 3 leaves are `x.css` (inner files partials),
     /// 4 plain with the extension written in the URL, 5 plain with @import/load-css nested in a
-    /// style rule, 6 plain with consecutive @imports joined into one statement
+    /// style rule, 6 plain with consecutive @imports joined into one statement, 7 leaves are `x.css`
+    /// and are loaded with the suffix written in the URL
     pattern: u8,
     /// per file: (kind, target) in source order; kind 0 @import, 1 @use, 2 @forward, 3 meta.load-css
     files: Vec<Vec<(u8, u8)>>,
@@ -61,7 +62,7 @@ fn path_of(g: &Graph, k: usize) -> String {
     }
     let leaf = g.files[k].is_empty();
     match (g.pattern, leaf) {
-        (0, _) | (4..=6, _) => format!("f{k}.scss"),
+        (0, _) | (4..=6, _) | (7, false) => format!("f{k}.scss"),
         (1, _) | (3, false) => format!("_f{k}.scss"),
         (2, false) => format!("f{k}.scss"),
         (2, true) => format!("f{k}/index.scss"),
@@ -77,7 +78,14 @@ fn source_of(g: &Graph, k: usize) -> String {
     let mut n = 0;
     while n < g.files[k].len() {
         let (kind, to) = g.files[k][n];
-        let url = if g.pattern == 4 { format!("f{to}.scss") } else { format!("f{to}") };
+        let url = if g.pattern == 4 {
+            format!("f{to}.scss")
+        } else if g.pattern == 7 && g.files[to as usize].is_empty() {
+            // plain-css target named with its suffix (the `@import` fallback path)
+            format!("f{to}.css")
+        } else {
+            format!("f{to}")
+        };
         let (open, close) = if g.pattern == 5 { (format!(".w{n} {{ "), " }") } else { (String::new(), "") };
         match kind {
             IMPORT => {
@@ -289,7 +297,7 @@ fn graphs(quick: bool) -> Vec<Graph> {
             }
             let nested_ok = files.iter().flatten().any(|e| !early(e.0));
             let joined_ok = files.iter().any(|f| f.windows(2).any(|w| w[0].0 == IMPORT && w[1].0 == IMPORT));
-            let all: Vec<u8> = (0u8..7).filter(|p| (*p != 5 || nested_ok) && (*p != 6 || joined_ok)).collect();
+            let all: Vec<u8> = (0u8..8).filter(|p| (*p != 5 || nested_ok) && (*p != 6 || joined_ok)).collect();
             let patterns: Vec<u8> = if quick {
                 // two naming patterns per graph, rotating through the applicable ones
                 let s = kinds.iter().sum::<usize>();
@@ -313,7 +321,7 @@ fn graphs(quick: bool) -> Vec<Graph> {
 fn main() {
     let ck = Check::from_args("C39");
     let quick = ck.quick() && !ck.is_replay();
-    ck.rule("acyclic graphs over f0..f3: 10 shapes x every assignment of the 4 load kinds to the edges x spelling patterns {plain, partial, leaves as index file, leaves as .css, extension in the URL, nested in a style rule, joined @imports}; per graph the fault-free run gives N loader calls; cases = every fault index i < N x {lookup Err, read Err at first read, read Err after a short read} (thorough: also every pair i < j x 9 kind pairs); distinct = distinct (graph, fault set); outcome = (error head, error variant, loader calls made)");
+    ck.rule("acyclic graphs over f0..f3: 10 shapes x every assignment of the 4 load kinds to the edges x spelling patterns {plain, partial, leaves as index file, leaves as .css, extension in the URL, nested in a style rule, joined @imports, .css leaves loaded with the suffix in the URL}; per graph the fault-free run gives N loader calls; cases = every fault index i < N x {lookup Err, read Err at first read, read Err after a short read} (thorough: also every pair i < j x 9 kind pairs); distinct = distinct (graph, fault set); outcome = (error head, error variant, loader calls made)");
     ck.assume("the call sequence up to the first effective fault is the fault-free one (the compilation is deterministic); a read fault at a call that finds no file cannot take effect");
 
     let gs = graphs(quick);
